@@ -300,9 +300,10 @@ Attach(a) ==
             /\ ist[i] \in {"stopping", "done", "reaped"}
             /\ att' = {b \in att : b.r # a.r}
             /\ KillRemote(a.r)
-            /\ lost' = lost \cup {"ks1"}
-            /\ ks' = ks \cup {a.r}
-            /\ lastAct' = [k |-> "attach_fail", r |-> a.r, u |-> a.u, kf |-> "KS1",
+            \* (while the plane is stopping the remote is about to be closed with the same code anyway: not a finding)
+            /\ lost' = lost \cup {IF srv = "run" THEN "ks1" ELSE "shutdown"}
+            /\ ks' = IF srv = "run" THEN ks \cup {a.r} ELSE ks
+            /\ lastAct' = [k |-> "attach_fail", r |-> a.r, u |-> a.u, kf |-> IF srv = "run" THEN "KS1" ELSE "",
                            o |-> <<[k |-> "closed", r |-> a.r, code |-> 1001], [k |-> "eof", r |-> a.r]>>]
             /\ UNCHANGED inbox
     /\ UNCHANGED <<srv, peerShut, findq, resolving, chan, cnt, ist, imeta, cur, store, due, nohold, released, sent>>
@@ -451,7 +452,7 @@ P3_OnlyUnrouted == [][\A j \in 1..(IF "o" \in DOMAIN lastAct' THEN Len(lastAct'.
 P4_NoLoss == lost \subseteq ({"inflight", "shutdown"} \cup (IF "KS1" \in Findings THEN {"ks1"} ELSE {}))
 \* a remote is closed only by its peer, by the shutdown, or by KS1
 ClosedOnlyWhen == \A r \in Remotes : rem[r] = "gone" =>
-                     \/ r \in peerShut \/ srv \in {"stopRemotes", "done"}
+                     \/ r \in peerShut \/ srv # "run"
                      \/ (r \in ks /\ "KS1" \in Findings)
 
 \* P5: when the server task ends every instance has stopped and every remote is closed
